@@ -97,3 +97,141 @@ Definition clone_h (fuel : nat) (h : heap) (root : nat) : heap * nat :=
     let '(h1, r') := copy_node_h h hr in
     (fold_left (fun hh e => copy_rec fuel hh r' e) (hn_br hr) h1, r')
   end.
+
+(** SubTree(n): the copy of n, then one copyTreeRecur per branch of n whose left end is n (the
+    branch to the parent is skipped).  The test reads the branches of the source, which the
+    copy never writes. *)
+Definition subtree_h (fuel : nat) (h : heap) (nid : nat) : heap * nat :=
+  match hnodes h nid with
+  | None => (h, nid)
+  | Some hr =>
+    let '(h1, r') := copy_node_h h hr in
+    let brs := filter (fun e => match hedges h e with
+                                | Some he => Nat.eqb (he_left he) nid
+                                | None => false
+                                end) (hn_br hr) in
+    (fold_left (fun hh e => copy_rec fuel hh r' e) brs h1, r')
+  end.
+
+(** * field writes (Node.SetName, Edge.SetLength / SetSupport / SetPValue, AddComment and
+    ClearComments on nodes and branches): store updates at the id of the record and, for
+    comments, at the id of its comment cell *)
+Inductive hwrite : Type :=
+| WName (nid : nat) (s : string)
+| WLen (eid : nat) (q : Q)
+| WSup (eid : nat) (q : Q)
+| WPv (eid : nat) (q : Q)
+| WNodeAddCom (nid : nat) (s : string)
+| WNodeClearCom (nid : nat)
+| WEdgeAddCom (eid : nat) (s : string)
+| WEdgeClearCom (eid : nat).
+
+Definition set_cell (h : heap) (c : nat) (l : list string) : heap :=
+  mkH (hnodes h) (hedges h) (upd (hcells h) c l) (hnext h).
+
+Definition apply_write (h : heap) (w : hwrite) : heap :=
+  match w with
+  | WName nid s =>
+    match hnodes h nid with
+    | Some n => mkH (upd (hnodes h) nid (mkHN s (hn_com n) (hn_neigh n) (hn_br n))) (hedges h) (hcells h) (hnext h)
+    | None => h
+    end
+  | WLen eid q =>
+    match hedges h eid with
+    | Some e => mkH (hnodes h) (upd (hedges h) eid (mkHE (he_left e) (he_right e) q (he_sup e) (he_pv e) (he_com e)))
+                    (hcells h) (hnext h)
+    | None => h
+    end
+  | WSup eid q =>
+    match hedges h eid with
+    | Some e => mkH (hnodes h) (upd (hedges h) eid (mkHE (he_left e) (he_right e) (he_len e) q (he_pv e) (he_com e)))
+                    (hcells h) (hnext h)
+    | None => h
+    end
+  | WPv eid q =>
+    match hedges h eid with
+    | Some e => mkH (hnodes h) (upd (hedges h) eid (mkHE (he_left e) (he_right e) (he_len e) (he_sup e) q (he_com e)))
+                    (hcells h) (hnext h)
+    | None => h
+    end
+  | WNodeAddCom nid s =>
+    match hnodes h nid with
+    | Some n => set_cell h (hn_com n) (cell_of h (hn_com n) ++ [s])
+    | None => h
+    end
+  | WNodeClearCom nid =>
+    match hnodes h nid with
+    | Some n => set_cell h (hn_com n) []
+    | None => h
+    end
+  | WEdgeAddCom eid s =>
+    match hedges h eid with
+    | Some e => set_cell h (he_com e) (cell_of h (he_com e) ++ [s])
+    | None => h
+    end
+  | WEdgeClearCom eid =>
+    match hedges h eid with
+    | Some e => set_cell h (he_com e) []
+    | None => h
+    end
+  end.
+
+(** the ids a write touches in the store [h] *)
+Definition touched (h : heap) (w : hwrite) : list nat :=
+  match w with
+  | WName nid _ => [nid]
+  | WLen eid _ | WSup eid _ | WPv eid _ => [eid]
+  | WNodeAddCom nid _ | WNodeClearCom nid =>
+    match hnodes h nid with Some n => [nid; hn_com n] | None => [nid] end
+  | WEdgeAddCom eid _ | WEdgeClearCom eid =>
+    match hedges h eid with Some e => [eid; he_com e] | None => [eid] end
+  end.
+
+Definition apply_writes (h : heap) (ws : list hwrite) : heap := fold_left apply_write ws h.
+
+(** * GraftTreeOnTip on the store: the tip node [tn] of the host is replaced, in the branch that
+    leads to it and in the neighbours of its parent, by the root [tr] of the graft, which
+    gets the parent as a new last neighbour.  Nothing is copied. *)
+Fixpoint index_of_nat (x : nat) (l : list nat) : option nat :=
+  match l with
+  | [] => None
+  | y :: r => if Nat.eqb y x then Some 0
+              else match index_of_nat x r with Some i => Some (S i) | None => None end
+  end.
+
+Fixpoint set_nth_nat (k : nat) (x : nat) (l : list nat) : list nat :=
+  match l, k with
+  | [], _ => []
+  | _ :: r, 0 => x :: r
+  | y :: r, S k' => y :: set_nth_nat k' x r
+  end.
+
+Definition graft_h (h : heap) (tn tr : nat) : option heap :=
+  match hnodes h tn with
+  | Some tip =>
+    (* ParentEdge: the branch of tn whose right end is tn *)
+    match find (fun e => match hedges h e with Some he => Nat.eqb (he_right he) tn | None => false end)
+               (hn_br tip) with
+    | Some pe =>
+      match hedges h pe with
+      | Some hpe =>
+        let pn := he_left hpe in
+        match hnodes h pn, hnodes h tr with
+        | Some par, Some root =>
+          match index_of_nat tn (hn_neigh par) with
+          | Some idx =>
+            Some (mkH (upd (upd (hnodes h) pn (mkHN (hn_name par) (hn_com par)
+                                                    (set_nth_nat idx tr (hn_neigh par)) (hn_br par)))
+                           tr (mkHN (hn_name root) (hn_com root) (hn_neigh root ++ [pn]) (hn_br root ++ [pe])))
+                      (upd (hedges h) pe (mkHE (he_left hpe) tr (he_len hpe) (he_sup hpe) (he_pv hpe) (he_com hpe)))
+                      (hcells h) (hnext h))
+          | None => None
+          end
+        | _, _ => None
+        end
+      | None => None
+      end
+    | None => None
+    end
+  | None => None
+  end.
